@@ -31,7 +31,7 @@ ASSUMPTIONS = [
 ]
 SHARDS = {"quick": 16, "thorough": 16}
 MINIMUMS = {
-    "quick": {"distinct_nontrivial": 1500, "objects_checked": 40000, "post_init_checked": 40000, "pre_tasks_checked": 3000, "route:instance": 1000, "route:fromParameters": 1000, "route:shared-store": 300, "route:job-process": 16, "cyclic_instances": 100, "init_tasks_checked": 100, "loader_pattern_cases": 400, "loader_shape:pre-task": 150},
+    "quick": {"distinct_nontrivial": 1500, "objects_checked": 40000, "post_init_checked": 40000, "pre_tasks_checked": 3000, "route:instance": 1000, "route:fromParameters": 1000, "route:from_state_dict-instance": 1000, "route:shared-store": 300, "route:job-process": 16, "cyclic_instances": 100, "init_tasks_checked": 100, "loader_pattern_cases": 400, "loader_shape:pre-task": 150},
     "thorough": {"distinct_nontrivial": 45000, "objects_checked": 1200000, "post_init_checked": 1200000, "pre_tasks_checked": 90000, "route:instance": 30000, "route:fromParameters": 30000, "route:shared-store": 9000, "route:job-process": 160, "cyclic_instances": 3000, "init_tasks_checked": 3000, "loader_pattern_cases": 6000, "loader_shape:pre-task": 2000},
 }
 N = {"quick": 3200, "thorough": 64000}
@@ -265,6 +265,36 @@ def route_from_parameters(ctx, recipe, b, root, rng):
             break
 
 
+def route_state_dict_instance(ctx, recipe, b, root, rng):
+    """The serialization entry points that return objects: state_dict -> from_state_dict(as_instance=True)."""
+    from experimaestro import SerializationContext, from_state_dict, state_dict
+
+    w = {"recipe": recipe, "route": "from_state_dict(as_instance=True)"}
+    orig = b.real[root]
+    sd = json.loads(json.dumps(state_dict(SerializationContext(), orig)))
+    calllog.LOG = []
+    try:
+        obj = from_state_dict(sd, as_instance=True)
+    finally:
+        log, calllog.LOG = calllog.LOG, None
+    ctx.count("route:from_state_dict-instance")
+    r = iso.compare_instances(orig, obj)
+    ctx.count("objects_checked", len(r.pairs))
+    if r.diffs:
+        ctx.violation("runtime-graph-differs:from_state_dict", f"{r.diffs[:3]}", w)
+        return
+    imgs = images_of(r)
+    post = {}
+    for ev, oid, cls, extra in log:
+        if ev == "post_init":
+            post[oid] = post.get(oid, 0) + 1
+    bad = [path for oid, (path, cfg) in imgs.items() if post.get(oid, 0) != 1]
+    for oid in imgs:
+        ctx.count("post_init_checked")
+    if bad:
+        ctx.violation("post-init-count:from_state_dict", f"from_state_dict(as_instance=True): __post_init__ calls differ from one for {len(bad)} of {len(imgs)} objects (e.g. {bad[:3]}: {[post.get(o, 0) for o in list(imgs)[:3]]})", w)
+
+
 def route_job_process(ctx, recipe, rng):
     from experimaestro import experiment
     from experimaestro.scheduler.workspace import RunMode
@@ -353,6 +383,8 @@ def explore(ctx, recipe, rng, real_budget):
         route_shared_store(ctx, recipe, b2, root, rng)
         if not cyc:
             route_from_parameters(ctx, recipe, b, root, rng)
+            b5 = build.Builder().run(recipe)
+            route_state_dict_instance(ctx, recipe, b5, root, rng)
             if recipe["kind"] == "task":
                 bs = build.Builder().run(recipe)
                 inits = []
